@@ -13,12 +13,12 @@ from harness import build, world, clock, spside, xmlmut, readers
 PROPERTY = 'C10'
 LEVEL = 'exploration'
 RULE = ('Hypothesis: request type {AuthnRequest, LogoutRequest, AttributeQuery -> IdP; LogoutRequest -> SP} x binding {Redirect, POST, SOAP} x requester {signing key in metadata, encryption-only key in metadata, no key in metadata} x signed {no, issuer key, foreign key} x '
-        'receiver want_authn_requests_signed x Destination {own, foreign, near miss of an own endpoint (suffix, query, case, scheme, prefix), other own endpoint, absent} x IssueInstant offset {0, +-1 h, +-(1 day) +- 2 s, +-10 d, -400 d} (independent of each other) x mutation {none, missing '
+        'receiver {no requirement, want_authn_requests_signed, want_authn_requests_only_with_valid_cert} x Destination {own, foreign, near miss of an own endpoint (suffix, query, case, scheme, prefix), other own endpoint, absent} x IssueInstant offset {0, +-1 h, +-(1 day) +- 2 s, +-10 d, -400 d} (independent of each other) x mutation {none, missing '
         'required attribute, other request type at this entry point, wrong root element, issuer unknown, truncated or garbled base64 / deflate / envelope layer, 1-3 step tree '
         'mutation script (edit, move, wrap, signature relocation, XSW construction) applied after signing}; plus the enumerated catalogue of XSW constructions (original parked in 7 places x 4 ID modes x 4 signature modes x 2 positions x stripped or not) over a signed request of every type and binding. Non-trivial = a mutation or a signature requirement is involved; '
         'distinct = distinct case.')
 ASSUMPTIONS = ['xmlsec1 stand-in; frozen clock; signature coverage re-checked with the independent predicate of C01 on the request element',
-               'want_authn_requests_only_with_valid_cert is not generated (needs CA machinery; DESIGN 3/C10)']
+               'want_authn_requests_only_with_valid_cert is generated without a certificate authority configured (the certificate check then passes trivially; signatures must still verify)']
 
 NOW = spside.NOW
 SPE = spside.SP
@@ -46,7 +46,8 @@ def receivers(want_signed):
             sp_md,
             build.entity_xml({'entityid': SPE_ENC, 'sp': {'keys': [('encryption', 2)], 'acs': [(world.POST, spside.ACS_POST, 0, True)], 'slo': [(world.REDIRECT, 'https://sp.verif.example/slo')]}}),
             build.entity_xml({'entityid': SPE_NOKEY, 'sp': {'keys': [], 'acs': [(world.POST, spside.ACS_POST, 0, True)], 'slo': [(world.REDIRECT, 'https://sp.verif.example/slo')]}}))
-        idp = world.make_idp(world.idp_conf(dict(world.DEFAULT_IDP, want_authn_requests_signed=want_signed,
+        idp = world.make_idp(world.idp_conf(dict(world.DEFAULT_IDP, want_authn_requests_signed=bool(want_signed) and want_signed != 'only-valid-cert',
+                                                 want_authn_requests_only_with_valid_cert=(want_signed == 'only-valid-cert'),
                                                  sso=[(ENDPOINTS[('authn', 'redirect')], world.REDIRECT), (ENDPOINTS[('authn', 'post')], world.POST)],
                                                  slo=[(ENDPOINTS[('logout', 'redirect')], world.REDIRECT), (ENDPOINTS[('logout', 'post')], world.POST), (ENDPOINTS[('logout', 'soap')], world.SOAP)],
                                                  aa=[(ENDPOINTS[('attrq', 'soap')], world.SOAP)]), [sp_md]))
@@ -66,7 +67,7 @@ TBS = [('authn', 'redirect'), ('authn', 'post'), ('logout', 'redirect'), ('logou
 def case_strategy():
     from hypothesis import strategies as st
     tb = st.sampled_from(TBS)
-    return st.fixed_dictionaries({'tb': tb.map(list), 'signed': st.sampled_from(['no', 'issuer', 'issuer', 'foreign']), 'want_signed': st.booleans(), 'mut': st.sampled_from(MUTS),
+    return st.fixed_dictionaries({'tb': tb.map(list), 'signed': st.sampled_from(['no', 'issuer', 'issuer', 'foreign']), 'want_signed': st.sampled_from([False, True, False, True, 'only-valid-cert']), 'mut': st.sampled_from(MUTS),
                                   'dmode': st.sampled_from(DMODES), 'sender': st.sampled_from(['std', 'std', 'std', 'std', 'enc-only', 'no-key']), 'offset': st.sampled_from(OFFSETS), 'near': st.integers(0, 9),
                                   'attr': st.sampled_from(['ID', 'IssueInstant', 'Version']), 'garble': st.tuples(st.sampled_from(['truncate', 'flip', 'prefix', 'not-b64', 'empty']), st.integers(1, 200)).map(list),
                                   'script': xmlmut.script_strategy(3), 'alg': st.sampled_from(['sha1', 'sha256', 'sha512']),
@@ -180,7 +181,7 @@ def run(case):
     except Exception as e:
         req, err = None, e
     handed = req is not None and getattr(req, 'message', None) is not None
-    want = case['want_signed'] and typ != 'sp-logout'
+    want = bool(case['want_signed']) and typ != 'sp-logout'
     pristine = who == 'std' and mut == 'none' and dmode in ('own', 'absent') and abs(case['offset']) <= 86400 - 2 and (case['signed'] in ('no', 'issuer')) and not (want and case['signed'] == 'no')
     if binding == 'soap' and case['signed'] != 'no':
         pristine = False    # the SOAP decoder re-serialises the body; signatures over foreign prefixes do not survive it (transport limitation, see C08 known finding)
